@@ -110,7 +110,7 @@ def gen_tree(rng, malformed=False):
         name = f'MOL{k}'
         names.append(name)
         lines = moltype_lines(rng, name)
-        where = rng.choice(['root', 'file', 'file', 'cond'])
+        where = rng.choice(['root', 'file', 'file', 'file', 'file', 'cond'])
         if where == 'root':
             root += lines
         elif where == 'file':
@@ -240,7 +240,7 @@ def observe(wd, rootpath):
             'atom_types': [(k, float(v['nb1']), float(v['nb2'])) for k, v in top.atom_types.items()],
             'types': types,
             'nonbond': sorted((sorted(k), float(v['nb1']), float(v['nb2'])) for k, v in top.nonbond_params.items()),
-            'blocks': blocks,
+            'blocks': [[' '.join(l.split()) for l in b] for b in blocks],
             'molecules': [m.mol_name for m in top.molecules],
             'mol_idx_by_name': {k: list(v) for k, v in top.mol_idx_by_name.items()},
             'natoms': [len(m.molecule.nodes) for m in top.molecules]}
@@ -286,7 +286,7 @@ def model_obs(res):
     out['atom_types'] = list(at.values())
     out['types'] = types
     out['nonbond'] = sorted(nb.values())
-    out['blocks'] = [list(b) for b in blocks]
+    out['blocks'] = [[' '.join(l.split()) for l in b] for b in blocks]
     mol = []
     for n, c in mols:
         mol += [n] * int(c)
@@ -339,6 +339,22 @@ def first_diff(a, b):
         if k in b and a[k] != b[k]:
             return f"{k}: {str(a[k])[:200]} vs {str(b[k])[:200]}"
     return None
+
+
+def cond_moltype_include(tree):
+    """signature of F7c: an #include of a file holding a [ moleculetype ] sits inside a conditional"""
+    for p, lines in tree['files'].items():
+        depth = 0
+        for l in lines:
+            if l.startswith('#if'):
+                depth += 1
+            elif l.startswith('#endif'):
+                depth -= 1
+            elif l.startswith('#include') and depth > 0:
+                sub = os.path.normpath(os.path.join(os.path.dirname(p), l.split()[1].strip('"')))
+                if any(x.startswith('[ moleculetype') for x in tree['files'].get(sub, [])):
+                    return True
+    return False
 
 
 def independence(ctx, wd, rootpath):
@@ -430,7 +446,8 @@ def run(ctx):
         # the statement itself, on the implementation
         if not same(impl, flat, skip=('blocks',)):
             ctx.violation('spec', f"reading the include tree differs from reading the flattened file: {first_diff(impl, flat)}",
-                          {'tree': tree, 'kind': 'tree_vs_flat', 'diff': first_diff(impl, flat)})
+                          {'tree': tree, 'kind': 'tree_vs_flat', 'diff': first_diff(impl, flat)},
+                          finding='F7c' if cond_moltype_include(tree) and 'error' not in impl and flat.get('error') == 'ErrIO' else None)
         elif 'error' not in impl and [l for b in impl['blocks'] for l in b if not l.startswith('[ system') and not l.startswith('[ molecules')] != \
                 [l for b in flat['blocks'] for l in b if not l.startswith('[ system') and not l.startswith('[ molecules')]:
             pass   # block boundaries may differ between tree and flat; their content is compared through natoms below
